@@ -1,0 +1,294 @@
+// Verification hooks (compiled only with `--cfg melda_verif`).
+//
+// * `HashMap` / `HashSet`: drop-in replacements for the std hash collections used by the core
+//   modules. They are backed by ordered collections, and every *iteration* yields the elements in
+//   sorted order permuted by a harness-controlled permutation (identity by default). Only the
+//   iteration order differs from std; lookups, insertions and removals behave identically.
+// * re-exports of crate-private items needed by the external verification harness.
+use std::borrow::Borrow;
+use std::collections::{BTreeMap, BTreeSet};
+use std::iter::FromIterator;
+
+pub use crate::revision::Revision;
+pub use crate::revisiontree::{RevisionTree, RevisionTreeEntry};
+pub use crate::utils::{
+    apply_diff_patch, digest_bytes, digest_object, digest_string, escape, flatten,
+    generate_identifier, is_array_descriptor, is_flattened_field, make_diff_patch, merge_arrays,
+    unescape, unflatten,
+};
+
+/// Iteration-order control
+pub mod order {
+    use std::sync::atomic::{AtomicBool, AtomicUsize, Ordering};
+    use std::sync::Mutex;
+
+    #[derive(Clone, Debug, PartialEq)]
+    pub enum Mode {
+        /// Ascending key order (default)
+        Sorted,
+        /// Descending key order
+        Reverse,
+        /// Ascending order rotated left by k (mod n)
+        Rotate(usize),
+        /// The `site`-th iteration (counted from the last `reset`) uses `perm` if its length
+        /// matches; every other iteration is sorted
+        Script { site: usize, perm: Vec<usize> },
+    }
+
+    static MODE: Mutex<Mode> = Mutex::new(Mode::Sorted);
+    static CALLS: AtomicUsize = AtomicUsize::new(0);
+    static RECORD: AtomicBool = AtomicBool::new(false);
+    static LOG: Mutex<Vec<(usize, usize)>> = Mutex::new(Vec::new());
+
+    pub fn set_mode(m: Mode) {
+        *MODE.lock().unwrap() = m;
+    }
+
+    pub fn get_mode() -> Mode {
+        MODE.lock().unwrap().clone()
+    }
+
+    /// Resets the iteration counter (and the recorded log)
+    pub fn reset() {
+        CALLS.store(0, Ordering::SeqCst);
+        LOG.lock().unwrap().clear();
+    }
+
+    /// Enables / disables recording of (site, length) for every iteration
+    pub fn record(on: bool) {
+        RECORD.store(on, Ordering::SeqCst);
+    }
+
+    pub fn calls() -> usize {
+        CALLS.load(Ordering::SeqCst)
+    }
+
+    pub fn take_log() -> Vec<(usize, usize)> {
+        std::mem::take(&mut *LOG.lock().unwrap())
+    }
+
+    /// Returns the permutation to be applied to an iteration over n sorted elements
+    pub fn perm(n: usize) -> Vec<usize> {
+        let site = CALLS.fetch_add(1, Ordering::SeqCst);
+        if RECORD.load(Ordering::SeqCst) {
+            LOG.lock().unwrap().push((site, n));
+        }
+        let mode = MODE.lock().unwrap();
+        match &*mode {
+            Mode::Sorted => (0..n).collect(),
+            Mode::Reverse => (0..n).rev().collect(),
+            Mode::Rotate(k) => {
+                if n == 0 {
+                    vec![]
+                } else {
+                    (0..n).map(|i| (i + k) % n).collect()
+                }
+            }
+            Mode::Script { site: s, perm } => {
+                if *s == site && perm.len() == n {
+                    perm.clone()
+                } else {
+                    (0..n).collect()
+                }
+            }
+        }
+    }
+
+    pub fn permute<T>(items: Vec<T>) -> Vec<T> {
+        let p = perm(items.len());
+        let mut slots: Vec<Option<T>> = items.into_iter().map(Some).collect();
+        p.into_iter()
+            .map(|i| slots[i].take().expect("invalid_permutation"))
+            .collect()
+    }
+}
+
+#[derive(Debug, Clone)]
+pub struct HashMap<K, V> {
+    inner: BTreeMap<K, V>,
+}
+
+impl<K: Ord, V> Default for HashMap<K, V> {
+    fn default() -> Self {
+        Self::new()
+    }
+}
+
+impl<K: Ord, V> HashMap<K, V> {
+    pub fn new() -> Self {
+        HashMap {
+            inner: BTreeMap::new(),
+        }
+    }
+
+    pub fn insert(&mut self, k: K, v: V) -> Option<V> {
+        self.inner.insert(k, v)
+    }
+
+    pub fn get<Q>(&self, k: &Q) -> Option<&V>
+    where
+        K: Borrow<Q>,
+        Q: Ord + ?Sized,
+    {
+        self.inner.get(k)
+    }
+
+    pub fn get_mut<Q>(&mut self, k: &Q) -> Option<&mut V>
+    where
+        K: Borrow<Q>,
+        Q: Ord + ?Sized,
+    {
+        self.inner.get_mut(k)
+    }
+
+    pub fn contains_key<Q>(&self, k: &Q) -> bool
+    where
+        K: Borrow<Q>,
+        Q: Ord + ?Sized,
+    {
+        self.inner.contains_key(k)
+    }
+
+    pub fn remove<Q>(&mut self, k: &Q) -> Option<V>
+    where
+        K: Borrow<Q>,
+        Q: Ord + ?Sized,
+    {
+        self.inner.remove(k)
+    }
+
+    pub fn clear(&mut self) {
+        self.inner.clear()
+    }
+
+    pub fn len(&self) -> usize {
+        self.inner.len()
+    }
+
+    pub fn is_empty(&self) -> bool {
+        self.inner.is_empty()
+    }
+
+    pub fn iter(&self) -> std::vec::IntoIter<(&K, &V)> {
+        order::permute(self.inner.iter().collect::<Vec<_>>()).into_iter()
+    }
+
+    pub fn keys(&self) -> std::vec::IntoIter<&K> {
+        order::permute(self.inner.keys().collect::<Vec<_>>()).into_iter()
+    }
+
+    pub fn values(&self) -> std::vec::IntoIter<&V> {
+        order::permute(self.inner.values().collect::<Vec<_>>()).into_iter()
+    }
+
+    pub fn values_mut(&mut self) -> std::vec::IntoIter<&mut V> {
+        order::permute(self.inner.values_mut().collect::<Vec<_>>()).into_iter()
+    }
+
+    pub fn retain<F>(&mut self, f: F)
+    where
+        F: FnMut(&K, &mut V) -> bool,
+    {
+        self.inner.retain(f)
+    }
+}
+
+impl<K: Ord, V> FromIterator<(K, V)> for HashMap<K, V> {
+    fn from_iter<I: IntoIterator<Item = (K, V)>>(iter: I) -> Self {
+        HashMap {
+            inner: iter.into_iter().collect(),
+        }
+    }
+}
+
+impl<K: Ord, V> IntoIterator for HashMap<K, V> {
+    type Item = (K, V);
+    type IntoIter = std::vec::IntoIter<(K, V)>;
+    fn into_iter(self) -> Self::IntoIter {
+        order::permute(self.inner.into_iter().collect::<Vec<_>>()).into_iter()
+    }
+}
+
+impl<'a, K: Ord, V> IntoIterator for &'a HashMap<K, V> {
+    type Item = (&'a K, &'a V);
+    type IntoIter = std::vec::IntoIter<(&'a K, &'a V)>;
+    fn into_iter(self) -> Self::IntoIter {
+        self.iter()
+    }
+}
+
+impl<K: Ord + Send, V: Send> rayon::iter::IntoParallelIterator for HashMap<K, V> {
+    type Item = (K, V);
+    type Iter = rayon::vec::IntoIter<(K, V)>;
+    fn into_par_iter(self) -> Self::Iter {
+        let v: Vec<(K, V)> = self.into_iter().collect();
+        rayon::iter::IntoParallelIterator::into_par_iter(v)
+    }
+}
+
+#[derive(Debug, Clone)]
+pub struct HashSet<T> {
+    inner: BTreeSet<T>,
+}
+
+impl<T: Ord> Default for HashSet<T> {
+    fn default() -> Self {
+        Self::new()
+    }
+}
+
+impl<T: Ord> HashSet<T> {
+    pub fn new() -> Self {
+        HashSet {
+            inner: BTreeSet::new(),
+        }
+    }
+
+    pub fn insert(&mut self, t: T) -> bool {
+        self.inner.insert(t)
+    }
+
+    pub fn contains<Q>(&self, t: &Q) -> bool
+    where
+        T: Borrow<Q>,
+        Q: Ord + ?Sized,
+    {
+        self.inner.contains(t)
+    }
+
+    pub fn len(&self) -> usize {
+        self.inner.len()
+    }
+
+    pub fn is_empty(&self) -> bool {
+        self.inner.is_empty()
+    }
+
+    pub fn iter(&self) -> std::vec::IntoIter<&T> {
+        order::permute(self.inner.iter().collect::<Vec<_>>()).into_iter()
+    }
+}
+
+impl<T: Ord> FromIterator<T> for HashSet<T> {
+    fn from_iter<I: IntoIterator<Item = T>>(iter: I) -> Self {
+        HashSet {
+            inner: iter.into_iter().collect(),
+        }
+    }
+}
+
+impl<T: Ord> IntoIterator for HashSet<T> {
+    type Item = T;
+    type IntoIter = std::vec::IntoIter<T>;
+    fn into_iter(self) -> Self::IntoIter {
+        order::permute(self.inner.into_iter().collect::<Vec<_>>()).into_iter()
+    }
+}
+
+impl<'a, T: Ord> IntoIterator for &'a HashSet<T> {
+    type Item = &'a T;
+    type IntoIter = std::vec::IntoIter<&'a T>;
+    fn into_iter(self) -> Self::IntoIter {
+        self.iter()
+    }
+}
